@@ -1,1 +1,18 @@
 import PysamlModel.Props.C17
+#print axioms C17.C17_model_meets_spec_wire
+#print axioms C17.C17_to_wire
+#print axioms C17.C17_to_wire_counterexample
+#print axioms C17.C17_model_meets_spec_local
+#print axioms C17.C17_to_local
+#print axioms C17.C17_to_local_known
+#print axioms C17.C17_unknown_dropped
+#print axioms C17.C17_unknown
+#print axioms C17.C17_set_roundtrip
+#print axioms C17.C17_set_roundtrip_xml
+#print axioms C17.C17_roundtrip
+#print axioms C17.C17_set_roundtrip_counterexample
+#print axioms C17.C17_roundtrip_eptid_counterexample
+#print axioms C17.C17_bundled_wf
+#print axioms C17.C17_bundled_wf_counterexample
+#print axioms C17.C17_bundled_not_distinct
+#print axioms C17.C17_bundled_roundtrip
